@@ -6,6 +6,8 @@ sample of 30 in quick), StronginC3, Rastrigin and XSquared n = 1..30), on the re
   bounds       lower[i] < upper[i] for all i (finite)
   objectives   numberOfObjectives == 1
   known_optimum  knownOptimum has exactly one trial, its point has `dimension` finite coordinates inside the box
+Part "handled" (a seeded sample of members): see handled_member - evaluating the objective at the instance's own bound / optimum vectors, and
+an owner modifying the declared optimum of ITS instance in place, change neither what that / a later instance declares nor a table row.
 Part "table" (rows: 70 seeded function numbers per family in quick, all 1000 in thorough; for each the three tables
 min*, max*, lConstant* of hill_generation / shekel_generation - in shekel_generation the max and Lipschitz tables are
 named maxHill and lConstantHill):
@@ -90,6 +92,63 @@ def check_metadata(fam, args):
     names = [str(t) for t in p.floatVariableNames] if _len(p.floatVariableNames) else []
     info["duplicate_names"] = len(set(names)) != len(names)
     return viol, info
+
+
+def _snapshot(fam, args, p):
+    ko = p.knownOptimum
+    snap = {"dimension": int(p.dimension), "lower": [float(t) for t in p.lowerBoundOfFloatVariables],
+            "upper": [float(t) for t in p.upperBoundOfFloatVariables],
+            "optimum_point": [float(t) for t in ko[0].point.floatVariables],
+            "optimum_value": float(ko[0].functionValues[0].value)}
+    if fam in ("hill", "shekel"):
+        g, tmin, tmax, tlip, names = _tables(fam)
+        i = args[0]
+        snap["table_rows"] = [[float(t) for t in np.ravel(tmin[i])], [float(t) for t in np.ravel(tmax[i])], [float(t) for t in np.ravel(tlip[i])]]
+    return snap
+
+
+def handled_member(fam, args):
+    """Part "handled": what a caller does WITH one instance's metadata must not change what the library declares.
+      evaluated-at-metadata   the objective is evaluated at the instance's own bound vectors and declared optimum (the arrays THEMSELVES,
+                              as a plotting script does: f at the box corners, f at the optimum): afterwards the instance declares what it
+                              declared before (bounds, optimum), and a published table row is what it was
+      scribbled-metadata      the caller then post-processes the declared optimum of that instance IN PLACE (its own object: shifted for a
+                              plot): an instance of the same member built afterwards declares the original metadata, the table row is intact"""
+    from iOpt.trial import Point, FunctionValue
+    viol = []
+
+    def v(clause, **obs):
+        viol.append({"property": "C18", "part": "handled", "family": fam, "args": list(args), "clause": clause, "observed": obs})
+    ref = _snapshot(fam, args, oc.construct(fam, args))
+    a = oc.construct(fam, args)
+    for what, arr in (("lower bound", a.lowerBoundOfFloatVariables), ("upper bound", a.upperBoundOfFloatVariables),
+                      ("declared optimum", a.knownOptimum[0].point.floatVariables)):
+        try:
+            a.Calculate(Point(arr, []), FunctionValue())
+        except Exception as e:      # noqa: BLE001
+            v("evaluated-at-metadata", what="evaluating at the " + what + " vector raised", error=repr(e)[:200])
+    now = _snapshot(fam, args, a)
+    if now != ref:
+        k = next(k for k in ref if now.get(k) != ref[k])
+        v("evaluated-at-metadata", changed=k, before=ref[k], after=now.get(k))
+        return viol
+    arr = a.knownOptimum[0].point.floatVariables
+    try:
+        if isinstance(arr, np.ndarray):
+            arr -= 1.2345
+        else:
+            for j in range(len(arr)):
+                arr[j] = arr[j] - 1.2345
+        a.knownOptimum[0].functionValues[0].value += 7.0
+    except Exception:       # noqa: BLE001 - read-only metadata is fine
+        pass
+    b = oc.construct(fam, args)
+    now = _snapshot(fam, args, b)
+    if now != ref:
+        k = next(k for k in ref if now.get(k) != ref[k])
+        v("scribbled-metadata", changed=k, before=ref[k], after=now.get(k),
+          what="after the declared optimum of ANOTHER instance of this member was modified in place by its owner")
+    return viol
 
 
 # ---------------------------------------------------------------------------------------------------------------
@@ -256,7 +315,25 @@ def run(tier, r):
         stats["metadata_members"][fam] = stats["metadata_members"].get(fam, 0) + 1
         stats["dimensions"][str(info.get("n"))] = stats["dimensions"].get(str(info.get("n")), 0) + 1
         stats["members_with_empty_or_duplicate_variable_names"] += 1 if info.get("duplicate_names") else 0
-    n_meta = len(mem)
+    # part "handled" (a seeded sample of members; the LAST step before the table part reads the tables)
+    hm = [("hill", (i,)) for i in sorted(r.sample(range(1000), 30 if not full else 300))] + \
+         [("shekel", (i,)) for i in sorted(r.sample(range(1000), 30 if not full else 300))] + \
+         [("shekel4", (i,)) for i in (1, 2, 3)] + [("gkls", (d, k)) for d in (2, 3, 4, 5) for k in sorted(r.sample(range(1, 101), 3 if not full else 25))] + \
+         [("grishagin", (k,)) for k in sorted(r.sample(range(1, 101), 4 if not full else 30))] + [("stronginc3", ())] + \
+         [("rastrigin", (n,)) for n in (1, 2, 5)] + [("xsquared", (n,)) for n in (1, 3)]
+    for fam, args in hm:
+        if oc.common.past_oracle_cap() or len(violations) >= 60:
+            break
+        res, err = oc.guarded(handled_member, fam, args)
+        if err is not None:
+            violations.append({"property": "C18", "part": "handled", "family": fam, "args": list(args), "tier": tier,
+                               "clause": "exception", "observed": err})
+            continue
+        for c in res:
+            c["tier"] = tier
+        violations += res
+        stats["handled_members"] = stats.get("handled_members", 0) + 1
+    n_meta = len(mem) + len(hm)
     n_rows = 0
     for fam in ("hill", "shekel"):
         rows_c = sorted(r.sample(range(1000), 40 if not full else 400))
@@ -308,6 +385,12 @@ def replay(case):
         viol = coexisting_rows(case["family"], case["batch_rows"], case.get("tier", "quick"))
         hit = [c for c in viol if c["row"] == case["row"] and c["table"] == case["table"]]
         return {"reproduced": bool(hit), "detail": hit[0]["observed"] if hit else {"violations_found": len(viol)}}
+    if case["part"] == "handled":
+        res, err = oc.guarded(handled_member, case["family"], tuple(case["args"]))
+        if err is not None:
+            return {"reproduced": case["clause"] == "exception", "detail": err}
+        hit = [c for c in res if c["clause"] == case["clause"]]
+        return {"reproduced": bool(hit), "detail": hit[0]["observed"] if hit else {"violations_found": len(res)}}
     if case["part"] == "metadata":
         res, err = oc.guarded(check_metadata, case["family"], tuple(case["args"]))
     else:
